@@ -187,7 +187,9 @@ class BucketMaxStrategy(DrainStrategy):
 class _MetricCache(defaultdict):
   """A Singleton dictionary of metric names and lists of their datapoints"""
   def __init__(self, strategy=None):
-    self.lock = threading.Lock()
+    # re-entrant: handlers of the space-available event run under the lock and may
+    # store datapoints themselves (re-injected relay buffer with RELAY_CACHE_METRICS)
+    self.lock = threading.RLock()
     self.size = 0
     self.new_metrics = deque()
     self.strategy = None
